@@ -184,7 +184,8 @@ func (r *runner) submit(id int, bad bool) (map[string]any, error) {
 func (r *runner) block(kind string, arg any, txs ...*transaction.Transaction) (map[string]any, error) {
 	var err error
 	r.ops = append(r.ops, map[string]any{"op": "block", "kind": kind, "arg": arg})
-	r.guard("AddBlock+postBlock", func() { err = r.w.addBlock(len(txs) > 0, txs...) })
+	// a completed fallback may FAULT (its system fee need not cover its script): it is charged all the same
+	r.guard("AddBlock+postBlock", func() { err = r.w.addBlock(len(txs) > 0 && !strings.HasPrefix(kind, "fallback"), txs...) })
 	if r.dead {
 		return nil, nil
 	}
@@ -323,10 +324,10 @@ func randomUniverse(r *rand.Rand) (Universe, []string) {
 	}
 	for _, n := range names {
 		d := ADep{Amt: int64(4 + r.Intn(11)), Till: maxVub + 1 + r.Intn(3)}
-		switch r.Intn(8) {
+		switch r.Intn(12) {
 		case 0:
 			d = ADep{} // no deposit (a top-up may create one later)
-		case 1, 2:
+		case 1:
 			d.Till = 3 + r.Intn(6) // unlocks while some requests are still valid
 		}
 		u.Deps[n] = d
@@ -342,6 +343,7 @@ func randomUniverse(r *rand.Rand) (Universe, []string) {
 		a.Nvb = lo + r.Intn(a.Vub-lo)
 		a.Netfee = int64(2 + r.Intn(4)) // many ties
 		a.Cost = a.Netfee + int64(r.Intn(4))
+		a.Pad = []int{0, 0, 0, 70, 160}[r.Intn(5)]
 		u.Reqs = append(u.Reqs, a)
 	}
 	if r.Intn(3) == 0 { // a request whose main transaction is sent by the Notary contract
@@ -373,13 +375,25 @@ func runRandom(t testing.TB, res *vh.Result, src string, seed int64) []map[strin
 		}
 	}
 	nops := 25 + rd.Intn(30)
-	for i := 0; i < nops && !r.dead && w.rel() < 11; i++ {
+	maxVub := 0
+	for _, q := range u.Reqs {
+		maxVub = max(maxVub, q.Vub)
+	}
+	for i := 0; i < nops && !r.dead && w.rel() <= maxVub; i++ {
 		k := rd.Intn(100)
 		switch {
 		case k < 58:
 			id := 1 + rd.Intn(n)
-			for tries := 0; tries < 4 && (u.Reqs[id-1].Vub <= w.rel() || (w.pool.ContainsKey(w.reqs[id-1].fallback.Hash()) && rd.Intn(3) != 0)); tries++ {
-				id = 1 + rd.Intn(n) // mostly requests that are still of interest
+			if rd.Intn(8) != 0 { // mostly requests that are still of interest: not expired, not pooled
+				var live []int
+				for j := range w.reqs {
+					if u.Reqs[j].Vub > w.rel() && (!w.pool.ContainsKey(w.reqs[j].fallback.Hash()) || rd.Intn(4) == 0) {
+						live = append(live, j+1)
+					}
+				}
+				if len(live) > 0 {
+					id = live[rd.Intn(len(live))]
+				}
 			}
 			r.submit(id, rd.Intn(25) == 0)
 		case k < 72:
@@ -423,7 +437,7 @@ func runRandom(t testing.TB, res *vh.Result, src string, seed int64) []map[strin
 					res.Inc("notarypool_random_blocks_refused", 1)
 				}
 			} else {
-				r.blockOf("empty", 0, "", 0)
+				r.submit(1+rd.Intn(n), false)
 			}
 		case k < 96:
 			if _, err := r.blockOf("topup", 0, names[rd.Intn(len(names))], int64(2+rd.Intn(5))*unit); err != nil {
@@ -437,7 +451,7 @@ func runRandom(t testing.TB, res *vh.Result, src string, seed int64) []map[strin
 					res.Inc("notarypool_random_blocks_refused", 1)
 				}
 			} else {
-				r.blockOf("empty", 0, "", 0)
+				r.submit(1+rd.Intn(n), false)
 			}
 		}
 	}
